@@ -80,6 +80,16 @@ Definition sh_marg (g : N -> Q) (p : list nat) (i : nat) : Q :=
 Definition sh_perm_avg (n i : nat) (g : N -> Q) : Q :=
   qsum (map (fun p => sh_marg g p i) (sh_perms n)) / inject_Z (sh_fact n).
 
+(* ---------- relabelling by an arbitrary permutation pi of the players (specification side) ---------- *)
+(* the coalition formed by a list of players *)
+Fixpoint sh_mask (p : list nat) : N :=
+  match p with [] => 0%N | j :: r => N.lor (single j) (sh_mask r) end.
+(* pi^-1(T) = { j < n | pi j in T } *)
+Definition sh_pull (n : nat) (pi : nat -> nat) (T : N) : N :=
+  sh_mask (filter (fun j => tb T (pi j)) (seq 0 n)).
+(* the relabelled game  g o pi^-1 : the coalition pi(S) gets the value g S *)
+Definition sh_relabel_by (n : nat) (pi : nat -> nat) (g : N -> Q) : N -> Q := fun T => g (sh_pull n pi T).
+
 (* ---------- linear forms over games (integer coefficients; reflection) ---------- *)
 Definition sh_lf := list (Z * N).
 Definition sh_eval (g : N -> Q) (l : sh_lf) : Q :=
